@@ -584,6 +584,193 @@ def stream_exhaustive(c, rng, maxn, variants):
     return len(cases)
 
 
+# ---------------------------------------------------------------------------------------------
+# several optimize() calls on ONE instance
+
+
+class RunView:
+    """what the taps recorded during one optimize() call (same attribute names as the problem)"""
+
+
+def run_seq_impl(case):
+    from rtctools.optimization.goal_programming_mixin import Goal
+    from rtctools.optimization.min_abs_goal_programming_mixin import MinAbsGoal
+    from rtctools.optimization.timeseries import Timeseries
+
+    cls = make_classes()[case["variant"]]
+    pr = cls(times=case["times"], p=case["p"], q=case["q"], cvals=case["cvals"], script=[], goal_specs=[], skip=[])
+    out = []
+    for run in case["runs"]:
+        pr.events, pr.current, pr.real_fail, pr.snap, pr.raw, pr.started_view = [], None, 0, {}, [], []
+        pr.n_pre = pr.n_post = 0
+        if hasattr(pr, "at_post"):
+            del pr.at_post
+        pr._ss.script, pr._ss.calls = list(run["script"]), 0
+        pr._skip = set(run["skip"])
+        pr._specs = list(run["goals"])
+        empties = [bool(build_goal(s, Goal, MinAbsGoal, Timeseries, pr._times).is_empty) for s in run["goals"]]
+        try:
+            with quiet_fd():
+                ret = pr.optimize()
+        except Exception as e:
+            out.append(dict(kind="raise", err=type(e).__name__ + ": " + str(e)[:300], empties=empties))
+            break
+        try:
+            final = [pr.extract_results(m) for m in range(pr.ensemble_size)]
+        except Exception as e:
+            final = type(e).__name__
+        v = RunView()
+        v.events, v.snap, v.raw, v.n_pre, v.n_post = pr.events, pr.snap, pr.raw, pr.n_pre, pr.n_post
+        v.real_fail, v.ensemble_size = pr.real_fail, pr.ensemble_size
+        if hasattr(pr, "at_post"):
+            v.at_post = pr.at_post
+        out.append(dict(kind="ok", ret=bool(ret), pr=v, final=final, empties=empties))
+    return out
+
+
+def classify_exposed_seq(views, k, final):
+    """('cached', run, p) / ('raw', run, p, ok) / ('nothing',) / ('stale-cache', run, p) / ('unknown',)"""
+    if isinstance(final, str):
+        return ("nothing",)
+    for j in range(k, -1, -1):
+        pv = views[j]["pr"]
+        solves = [e for e in pv.events if e[0] == "X"]
+        for p in reversed([e[1] for e in pv.events if e[0] == "C"]):
+            objs, copies = pv.snap[p]
+            if all(f is o for f, o in zip(final, objs)):
+                ks = [i for i, e in enumerate(solves) if e[1] == p and e[2]]
+                fresh = bool(ks) and ks[-1] < len(pv.raw) and all(
+                    results_equal(f, r) and results_equal(cp, r) for f, cp, r in zip(final, copies, pv.raw[ks[-1]]))
+                return ("cached", j, p) if fresh else ("stale-cache", j, p)
+    for j in range(k, -1, -1):
+        pv = views[j]["pr"]
+        solves = [e for e in pv.events if e[0] == "X"]
+        for i in reversed(range(len(pv.raw))):
+            if all(results_equal(f, r) for f, r in zip(final, pv.raw[i])):
+                return ("raw", j, solves[i][1], solves[i][2])
+    return ("unknown",)
+
+
+def oracle_seq(c, case_k, views, k):
+    """the per-run oracle, plus: a run that completed no priority but called the solver exposes the
+    output of ITS OWN last solve -- never results captured by an earlier optimize() call"""
+    r = views[k]
+    oracle(c, case_k, r)
+    pv = r["pr"]
+    if any(e[0] == "C" for e in pv.events) or not pv.raw:
+        return
+    for name, res in (("after optimize()", r["final"]), ("inside post()", getattr(pv, "at_post", None))):
+        if isinstance(res, str) or res is None:
+            c.fail("run %d: extract_results() %s raised although the solver was called" % (k, name), case_k)
+            return
+        if all(results_equal(f, rw) for f, rw in zip(res, pv.raw[-1])):
+            continue
+        what = "are not the output of this run's own (failed) solve"
+        for j in range(k - 1, -1, -1):
+            pj = views[j]["pr"]
+            for p, (objs, copies) in pj.snap.items():
+                if all(results_equal(f, cp) for f, cp in zip(res, copies)):
+                    what = "are the results cached at priority %r of the EARLIER optimize() call %d" % (p, j)
+        c.fail("run %d completed no priority, but the results exposed %s %s" % (k, name, what), case_k,
+               {"events": pv.events, "ret": r["ret"]})
+        return
+
+
+def check_sequences(c, cases, stream):
+    results, lines = [], []
+    for case in cases:
+        rs = run_seq_impl(case)
+        results.append(rs)
+        runs = []
+        for k, run in enumerate(case["runs"]):
+            eff = [e[2] for e in rs[k]["pr"].events if e[0] == "X"] if k < len(rs) and rs[k]["kind"] == "ok" else run["script"]
+            runs.append(dict(goals=[wire_goal(s) for s in run["goals"]], script=[bool(b) for b in eff],
+                             skip=sorted(int(p) for p in run["skip"])))
+        lines.append(dict(op="seq", single=(case["variant"] == "single"), runs=runs))
+    outs = c.model(lines)
+    for i, (case, rs) in enumerate(zip(cases, results)):
+        v = case["variant"]
+        shape = []
+        for k, r in enumerate(rs):
+            run = case["runs"][k]
+            case_k = dict(stream=stream, variant=v, times=case["times"], p=case["p"], q=case["q"], cvals=case["cvals"],
+                          goals=run["goals"], script=run["script"], skip=run["skip"], run=k,
+                          runs=case["runs"])
+            if r["kind"] == "raise":
+                c.hit("%s/%s/raise" % (stream, v))
+                c.fail("optimize() call %d on the same instance raised: %s" % (k, r["err"]), case_k)
+                break
+            ev = r["pr"].events
+            solves = [e for e in ev if e[0] == "X"]
+            done = any(e[0] == "C" for e in ev)
+            shape.append(("ok" if r["ret"] else ("fail-first" if solves and not done else ("fail-later" if solves else "no-solve"))))
+            oracle_seq(c, case_k, rs, k)
+            if outs is None:
+                continue
+            mo = outs[i][k]
+            exp = classify_exposed_seq(rs, k, r["final"])
+            exp = [int(x) if isinstance(x, (int, np.integer)) and not isinstance(x, (bool, np.bool_)) else
+                   (bool(x) if isinstance(x, (bool, np.bool_)) else x) for x in exp]
+            what = None
+            if mo["events"] != norm_events(ev):
+                what = "event log"
+            elif mo["ret"] != r["ret"]:
+                what = "return value"
+            elif mo["exposed"] != exp:
+                what = "results exposed after the call"
+            if what:
+                c.disagree("%s/%s: call %d: %s" % (stream, v, k, what), case_k,
+                           {k2: mo[k2] for k2 in ("events", "ret", "exposed")},
+                           {"events": norm_events(ev), "ret": r["ret"], "exposed": exp})
+        c.count((stream, v, tuple(shape), tuple(tuple(r["script"]) for r in case["runs"]),
+                 tuple(tuple(sorted(r["skip"])) for r in case["runs"])))
+        c.hit("%s/%s/%d-calls" % (stream, v, len(case["runs"])))
+        for a, b in zip(shape, shape[1:]):
+            c.hit("%s/%s-then-%s" % (stream, a, b))
+        c.sample(dict(stream=stream, variant=v, runs=[dict(script=r["script"], skip=r["skip"]) for r in case["runs"]],
+                      shape=shape), limit=8)
+
+
+def stream_sequences(c, rng, big):
+    """2-3 optimize() calls on one instance with independent scripts / skip sets (/ goal sets) per call"""
+    cases = []
+    for v in ("multi", "single"):
+        for n in ((1, 2, 3) if big else (1, 2)):
+            base = gen_case(rng, variant=v, nprio=n, script=[])
+            scripts = [list(sc) for sc in itertools.product([True, False], repeat=n)]
+            for s1 in scripts:
+                for s2 in scripts:
+                    cases.append(dict(base, runs=[dict(goals=base["goals"], script=s1, skip=[]),
+                                                  dict(goals=base["goals"], script=s2, skip=[])]))
+        if big:
+            base = gen_case(rng, variant=v, nprio=2, script=[])
+            scripts = [list(sc) for sc in itertools.product([True, False], repeat=2)]
+            for s1 in scripts:
+                for s2 in scripts:
+                    for s3 in scripts:
+                        cases.append(dict(base, runs=[dict(goals=base["goals"], script=s, skip=[]) for s in (s1, s2, s3)]))
+    # sampled longer ones: 3 priorities, 2-3 calls, skip sets, goal set changed between the calls,
+    # and always some "successful call, then a call failing at its first priority"
+    for j in range(150 if big else 12):
+        v = rng.choice(["multi", "multi", "single"])
+        n = rng.choice([2, 3, 3, 4])
+        base = gen_case(rng, variant=v, nprio=n, script=[])
+        prios = sorted({int(g["priority"]) for g in base["goals"]})
+        runs = []
+        for k in range(rng.choice([2, 3])):
+            goals = base["goals"]
+            if rng.random() < 0.3:  # "a goal was switched on/off in between"
+                goals = [g for g in goals if rng.random() < 0.7] or goals[:1]
+            sk = rng.sample(prios, rng.randint(1, 2)) if (v == "multi" and rng.random() < 0.3) else []
+            runs.append(dict(goals=goals, script=[rng.random() < 0.6 for _ in range(n)], skip=sk))
+        if j % 3 == 0:
+            runs[0]["script"], runs[0]["skip"] = [True] * n, []
+            runs[1]["script"] = [False] + runs[1]["script"][1:]
+        cases.append(dict(base, runs=runs))
+    check_sequences(c, cases, "sequence")
+    return len(cases)
+
+
 def stream_skip(c, rng, sizes, variants, sample=None):
     """priorities removed in priority_started x solver scripts: for n priorities every non-empty set of
     skipped priorities and every success/failure script over the remaining ones (completed -> skipped
@@ -671,7 +858,10 @@ def run(c):
         ns += stream_skip(c, rng, (3,), ("single",), sample=10)
     c.notes.append("skip_priority stream: every non-empty set of removed priorities x every script over the remaining "
                    "ones (%d runs; complete for n <= %d priorities in the multi-pass variant); " % (ns, 5 if c.big else 4))
-    check_instances(c, [gen_case(rng) for _ in range(c.n(120, 3000))], "random")
+    nq = stream_sequences(c, rng, c.big)
+    c.notes.append("sequence stream: %d instances optimized 2-3 times with independent scripts/skip sets per call "
+                   "(all pairs of scripts for n <= %d priorities, both variants, plus sampled longer ones); " % (nq, 3 if c.big else 2))
+    check_instances(c, [gen_case(rng) for _ in range(c.n(100, 3000))], "random")
     c.programs = c.evaluations
     c.notes.append("the unbounded claim (any goal set, any outcome oracle) is carried by the theorems.")
 
